@@ -3,6 +3,7 @@ package pipe
 import (
 	"bytes"
 	"fmt"
+	"regexp"
 	"strings"
 
 	"pgregory.net/rapid"
@@ -36,6 +37,87 @@ var RegexPool = []string{
 	`status=(?P<code>\d+)`,
 	`^(?:(\w+)[ =:])*(\w+)$`,
 	"\\xff|\\x00",
+}
+
+// Literals are the texts the literal / anchored patterns below are built
+// from; the corpus embeds them (alone, and as a proper prefix / suffix / infix
+// of longer lines), and several occur in the ordinary line shapes as well
+// ("error", "abc", "GET /a/b 200", "a.b", "k=v", "/x?y=1"). Four of them
+// contain regexp metacharacters, which the patterns escape.
+var Literals = []string{"err", "ab", "GET /a", "a.b", "k=v", "/x?y=1", "[ok]", "$1.5"}
+
+// LitPattern describes one pattern of the literal pool.
+type LitPattern struct {
+	Pattern     string
+	Literal     string // the text the pattern spells out
+	Left, Right bool   // anchored at the start / at the end of the line
+	Grouped     bool   // the literal sits in a (named) capture group
+}
+
+// LiteralPatterns: every literal x {bare, anchored left, right, both} x
+// {^ $, \A \z, (?m)^ $, mixed} x {group-free, one capture group, one named
+// group}. All of them are decided by the independently compiled reference
+// regexp like any other pattern; the table only feeds the labels.
+var LiteralPatterns = func() []LitPattern {
+	var out []LitPattern
+	for _, lit := range Literals {
+		q := regexp.QuoteMeta(lit)
+		add := func(p string, l, r, g bool) { out = append(out, LitPattern{p, lit, l, r, g}) }
+		add(q, false, false, false)
+		add("^"+q, true, false, false)
+		add(`\A`+q, true, false, false)
+		add(q+"$", false, true, false)
+		add(q+`\z`, false, true, false)
+		add(`(?m)`+q+"$", false, true, false)
+		add("^"+q+"$", true, true, false)
+		add(`\A`+q+`\z`, true, true, false)
+		add("^"+q+`\z`, true, true, false)
+		add(`(?m)^`+q+"$", true, true, false)
+		add("("+q+")", false, false, true)
+		add("^("+q+")", true, false, true)
+		add("("+q+")$", false, true, true)
+		add("^("+q+")$", true, true, true)
+		add("^(?P<all>"+q+")$", true, true, true)
+	}
+	return out
+}()
+
+// LiteralInfo returns the table entry of a pattern of the literal pool.
+func LiteralInfo(pattern string) *LitPattern {
+	for i := range LiteralPatterns {
+		if LiteralPatterns[i].Pattern == pattern {
+			return &LiteralPatterns[i]
+		}
+	}
+	return nil
+}
+
+// ClassicRegexPool is the part of RegexPool above; RegexPool also holds the
+// literal pool.
+var ClassicRegexPool = RegexPool[:len(RegexPool):len(RegexPool)]
+
+func init() {
+	for _, lp := range LiteralPatterns {
+		RegexPool = append(RegexPool, lp.Pattern)
+	}
+}
+
+// GzipLookalikes are beginnings of files that carry the gzip magic 1f 8b
+// without being gzip: with -z such a file is read as plain text from its
+// first byte. (Whether what follows one of these heads happens to complete a
+// header that a gzip reader accepts is decided per case by UseGunzip.)
+var GzipLookalikes = []string{
+	"\x1f\x8b",                           // the magic and nothing else
+	"\x1f\x8b\n",                         // the magic is line 1
+	"\x1f\x8b\x00 spool v2 GET /a ",      // compression method is not deflate
+	"\x1f\x8bGET /a 200",                 // text after the magic
+	"\x1f\x8b\x08",                       // header cut after the method byte
+	"\x1f\x8b\x08\x00\x00\x00\x00",       // header cut inside the mtime field
+	"\x1f\x8b\x08\x00\x00\n\x00\x00\x00", // one byte short of a header, with a newline in it
+	"\x1f\x8b\x08\x08\x00\x00\x00\x00\x00\x03name-never-terminated ",                   // FNAME without its NUL
+	"\x1f\x8b\x08\x04\x00\x00\x00\x00\x00\x03\xff\xffab",                               // FEXTRA longer than the file
+	"\x1f\x8b\x08\x02\x00\x00\x00\x00\x00\x03\x00\x00 err k=v",                         // FHCRC that does not fit the header
+	"\x1f\x8b\x09\x00\x00\x00\x00\x00\x00\x03\x03\x00\x00\x00\x00\x00\x00\x00\x00\x00", // an empty member but for the method byte
 }
 
 // Dissect pool.
@@ -97,7 +179,7 @@ var hostile = []string{"\x00", "\xff", "\r", "\x1b[31m", "é", "日本", "\t", "
 
 func genLine(t *rapid.T) []byte {
 	var sb bytes.Buffer
-	switch rapid.IntRange(0, 11).Draw(t, "lk") {
+	switch rapid.IntRange(0, 13).Draw(t, "lk") {
 	case 0:
 		// empty
 	case 1: // access-log like
@@ -146,6 +228,30 @@ func genLine(t *rapid.T) []byte {
 	case 11: // line ending with CR (CRLF strips only one)
 		sb.WriteString(rapid.SampledFrom(words).Draw(t, "w"))
 		sb.WriteByte('\r')
+	case 12, 13: // a pool literal: the whole line, or a proper prefix / suffix / infix of it, repeated, case-flipped, cut short
+		lit := rapid.SampledFrom(Literals).Draw(t, "lit")
+		switch rapid.IntRange(0, 9).Draw(t, "litMod") {
+		case 0:
+			lit = strings.ToUpper(lit)
+		case 1:
+			lit = lit[:len(lit)-1]
+		}
+		pre := rapid.SampledFrom([]string{"x", " ", "10.0.0.1 ", "é", "\t", "a"}).Draw(t, "litPre")
+		suf := rapid.SampledFrom([]string{"z", " ", " 200", "\r", "or", "é"}).Draw(t, "litSuf")
+		switch rapid.IntRange(0, 6).Draw(t, "litForm") {
+		case 0, 1:
+			sb.WriteString(lit)
+		case 2:
+			sb.WriteString(lit + suf)
+		case 3:
+			sb.WriteString(pre + lit)
+		case 4:
+			sb.WriteString(pre + lit + suf)
+		case 5:
+			sb.WriteString(lit + lit)
+		case 6:
+			sb.WriteString(lit + " " + pre + lit)
+		}
 	}
 	return sb.Bytes()
 }
@@ -197,10 +303,14 @@ func GenMatcher(t *rapid.T) (Matcher, string) {
 		m.IgnoreCase = rapid.IntRange(0, 3).Draw(t, "ic") == 0
 	default:
 		m.Kind = "regex"
-		m.Pattern = rapid.SampledFrom(RegexPool).Draw(t, "rpat")
+		if rapid.IntRange(0, 2).Draw(t, "rpool") == 0 {
+			m.Pattern = rapid.SampledFrom(LiteralPatterns).Draw(t, "lpat").Pattern
+		} else {
+			m.Pattern = rapid.SampledFrom(ClassicRegexPool).Draw(t, "rpat")
+		}
 		m.IgnoreCase = rapid.IntRange(0, 3).Draw(t, "ic") == 0
 		m.Posix = rapid.IntRange(0, 4).Draw(t, "posix") == 0
-		if m.Posix && (strings.Contains(m.Pattern, "(?P<") || strings.Contains(m.Pattern, "(?:") || strings.Contains(m.Pattern, `\d`) || strings.Contains(m.Pattern, `\w`) || strings.Contains(m.Pattern, `\s`) || strings.Contains(m.Pattern, `\S`) || strings.Contains(m.Pattern, `\x`)) {
+		if m.Posix && (strings.Contains(m.Pattern, "(?m)") || strings.Contains(m.Pattern, `\A`) || strings.Contains(m.Pattern, `\z`) || strings.Contains(m.Pattern, "(?P<") || strings.Contains(m.Pattern, "(?:") || strings.Contains(m.Pattern, `\d`) || strings.Contains(m.Pattern, `\w`) || strings.Contains(m.Pattern, `\s`) || strings.Contains(m.Pattern, `\S`) || strings.Contains(m.Pattern, `\x`)) {
 			m.Posix = false // CompilePOSIX rejects Perl extensions
 		}
 		if m.Posix {
@@ -250,6 +360,15 @@ func GenCase(t *rapid.T, maxInputs, maxLines int) Case {
 			// an input shorter than a gzip header (10 bytes)
 			tiny := rapid.SampledFrom([]string{"a", "a\n", "GET /a 1", "ab\ncd", "x\r\ny\r\n", "\n", "200 k=v\n", "abc 12\n"}).Draw(t, "tinyContent")
 			c.Inputs = append(c.Inputs, Input{Name: fmt.Sprintf("in%d.log", i), Content: pbt.S(tiny)})
+			continue
+		}
+		if rapid.IntRange(0, 8).Draw(t, "lookalike") == 0 {
+			// an input that starts with the gzip magic without being gzip
+			content := []byte(rapid.SampledFrom(GzipLookalikes).Draw(t, "lookalikeHead"))
+			if rapid.IntRange(0, 2).Draw(t, "lookalikeTail") != 0 {
+				content = append(content, GenContent(t, 8, false)...)
+			}
+			c.Inputs = append(c.Inputs, Input{Name: fmt.Sprintf("in%d.log", i), Content: pbt.S(content)})
 			continue
 		}
 		c.Inputs = append(c.Inputs, Input{Name: fmt.Sprintf("in%d.log", i), Content: pbt.S(GenContent(t, lines, true))})
